@@ -89,14 +89,20 @@ impl<R: RngCore> RngCore for CountingRng<R> {
     }
 }
 
-#[derive(Debug)]
 pub enum DynErr {
     Leaf(u64),
     Path(Vec<Value>),
 }
+// renders without any digit, so that the only number in a combinator error's text is the one
+// the combinator put there (the element index of a map error)
+impl std::fmt::Debug for DynErr {
+    fn fmt(&self, f: &mut std::fmt::Formatter<'_>) -> std::fmt::Result {
+        f.write_str("DynErr")
+    }
+}
 impl std::fmt::Display for DynErr {
     fn fmt(&self, f: &mut std::fmt::Formatter<'_>) -> std::fmt::Result {
-        write!(f, "{self:?}")
+        f.write_str("component failed")
     }
 }
 impl std::error::Error for DynErr {}
@@ -200,20 +206,44 @@ impl Operator<Val> for DynOp {
     }
 }
 
-/// One level of a combinator error -> the step it names, by its `Debug` / `Display` rendering
-/// (the enums cannot be matched on from outside the crate); the cause is its `source()`.
-fn step_of<E: std::error::Error + 'static>(e: &E) -> DynErr {
-    let dbg = format!("{e:?}");
-    let step = if dbg.starts_with("First(") {
-        json!({"s": "first", "i": 0})
-    } else if dbg.starts_with("Second(") {
-        json!({"s": "second", "i": 0})
-    } else if dbg.starts_with("MapError(") {
-        let msg = e.to_string();
-        let idx: u64 = msg.split("on the ").nth(1).and_then(|r| r.split("-th").next()).and_then(|n| n.parse().ok()).unwrap_or(u64::MAX);
-        json!({"s": "elem", "i": idx})
+/// the integers written in a text
+fn numbers_in(text: &str) -> Vec<u64> {
+    text.split(|c: char| !c.is_ascii_digit()).filter(|t| !t.is_empty()).filter_map(|t| t.parse().ok()).collect()
+}
+
+/// One level of a combinator error -> the step it names. The enums live in private modules and
+/// cannot be matched on from outside the crate, so the step is read from what the error says
+/// about itself: a then / and error names its part ("First" / "Second", from its `Debug` variant
+/// name or, failing that, the wording of `Display`); a map error carries exactly one number -
+/// the element index - in its `Display` (or `Debug`) text, whatever the wording. The cause is its
+/// `source()`.
+fn step_of<E: std::error::Error + 'static>(e: &E, combinator: &str) -> DynErr {
+    let mut dbg = format!("{e:?}");
+    let mut msg = e.to_string();
+    if let Some(src) = e.source() {
+        // what the cause says about itself is not what this level says
+        msg = msg.replace(&src.to_string(), "");
+        dbg = dbg.replace(&format!("{src:?}"), "");
+    }
+    let step = if combinator == "map" {
+        let mut nums = numbers_in(&msg);
+        if nums.is_empty() {
+            nums = numbers_in(&dbg);
+        }
+        nums.dedup();
+        match nums.as_slice() {
+            [idx] => json!({"s": "elem", "i": idx}),
+            _ => json!({"s": "elem", "i": "unreadable", "display": msg, "debug": dbg}),
+        }
     } else {
-        json!({"s": "unknown", "i": 0})
+        let lower = msg.to_lowercase();
+        let (f, g) = (dbg.starts_with("First"), dbg.starts_with("Second"));
+        let (f, g) = if f || g { (f, g) } else { (lower.contains("first"), lower.contains("second")) };
+        match (f, g) {
+            (true, false) => json!({"s": "first", "i": 0}),
+            (false, true) => json!({"s": "second", "i": 0}),
+            _ => json!({"s": "unknown", "i": 0, "display": msg, "debug": dbg}),
+        }
     };
     let inner = e.source().and_then(|s| s.downcast_ref::<DynErr>()).map_or_else(
         || vec![json!({"s": "lost", "i": 0})],
@@ -292,30 +322,30 @@ fn build(e: &Value, kind: &str) -> DynOp {
         }
         "then" => {
             let t = build(&e["a"], kind).then(build(&e["b"], kind));
-            DynOp(Box::new(move |x, mut r| t.apply(x, &mut r).map_err(|e| step_of(&e))))
+            DynOp(Box::new(move |x, mut r| t.apply(x, &mut r).map_err(|e| step_of(&e, "bin"))))
         }
         "and" => {
             let t = build(&e["a"], kind).and(build(&e["b"], kind));
-            DynOp(Box::new(move |x, mut r| t.apply(x, &mut r).map(|(a, b)| pair(a, b)).map_err(|e| step_of(&e))))
+            DynOp(Box::new(move |x, mut r| t.apply(x, &mut r).map(|(a, b)| pair(a, b)).map_err(|e| step_of(&e, "bin"))))
         }
         "map_t" => {
             let m = Identity.map(build(&e["a"], kind));
             DynOp(Box::new(move |x, mut r| match x {
-                Val::P(a, b) => m.apply((*a, *b), &mut r).map(|(a, b)| pair(a, b)).map_err(|e| step_of(&e)),
+                Val::P(a, b) => m.apply((*a, *b), &mut r).map(|(a, b)| pair(a, b)).map_err(|e| step_of(&e, "map")),
                 other => panic!("map over a pair applied to {other:?}"),
             }))
         }
         "map_a" => {
             let m = Identity.map(build(&e["a"], kind));
             DynOp(Box::new(move |x, mut r| match x {
-                Val::P(a, b) => m.apply([*a, *b], &mut r).map(|[a, b]| pair(a, b)).map_err(|e| step_of(&e)),
+                Val::P(a, b) => m.apply([*a, *b], &mut r).map(|[a, b]| pair(a, b)).map_err(|e| step_of(&e, "map")),
                 other => panic!("map over an array applied to {other:?}"),
             }))
         }
         "map_v" => {
             let m = Identity.map(build(&e["a"], kind));
             DynOp(Box::new(move |x, mut r| match x {
-                Val::L(xs) => m.apply(xs, &mut r).map(Val::L).map_err(|e| step_of(&e)),
+                Val::L(xs) => m.apply(xs, &mut r).map(Val::L).map_err(|e| step_of(&e, "map")),
                 other => panic!("map over a vector applied to {other:?}"),
             }))
         }
